@@ -431,4 +431,78 @@ theorem C33_only_schnorr_after_start (c : Cfg) (l : Ledger) (height : Nat) (t : 
 example : specialCheck ⟨100, 10, 20, 30, 2, 2, 2⟩ ⟨[⟨5, true⟩, ⟨7, true⟩], [], [⟨5, true⟩, ⟨7, true⟩], 2, 1, [9]⟩ 25
     ⟨1, [], [3], [], [true, true], [⟨true, 3, 2, [7, 5], false, 0⟩]⟩ = none := by decide
 
+/-- the matching loop only ever counts script keys that signed, each once -/
+theorem matchSigs_spec (keys : List Nat) (sigs : List (Option Nat)) : ∀ (v w : List Nat),
+    matchSigs keys sigs v = some w → v.Nodup →
+    (∀ k ∈ v, k ∈ keys ∧ (some k ∈ sigs ∨ k ∈ v)) →
+    w.Nodup ∧ ∀ k ∈ w, k ∈ keys ∧ (some k ∈ sigs ∨ k ∈ v) := by
+  induction sigs with
+  | nil => intro v w h hn hv; simp [matchSigs] at h; subst h; exact ⟨hn, hv⟩
+  | cons s r ih =>
+    intro v w h hn hv
+    cases s with
+    | none =>
+      simp only [matchSigs] at h
+      have := ih v w h hn (fun k hk => ⟨(hv k hk).1, Or.inr hk⟩)
+      exact ⟨this.1, fun k hk => ⟨(this.2 k hk).1, (this.2 k hk).2.elim (fun h => Or.inl (List.mem_cons_of_mem _ h)) Or.inr⟩⟩
+    | some k0 =>
+      simp only [matchSigs] at h
+      split at h
+      · rename_i hin
+        split at h
+        · cases h
+        · rename_i hnv
+          have hk0 : k0 ∈ keys := by simpa using hin
+          have hnv' : k0 ∉ v := by simpa using hnv
+          have := ih (k0 :: v) w h (List.nodup_cons.mpr ⟨hnv', hn⟩)
+            (fun k hk => by
+              rcases List.mem_cons.mp hk with rfl | hk
+              · exact ⟨hk0, Or.inr (List.mem_cons_self ..)⟩
+              · exact ⟨(hv k hk).1, Or.inr (List.mem_cons_of_mem _ hk)⟩)
+          refine ⟨this.1, fun k hk => ⟨(this.2 k hk).1, ?_⟩⟩
+          rcases (this.2 k hk).2 with h1 | h1
+          · exact Or.inl (List.mem_cons_of_mem _ h1)
+          · rcases List.mem_cons.mp h1 with rfl | h1
+            · exact Or.inl (List.mem_cons_self ..)
+            · exact Or.inr h1
+      · have := ih v w h hn (fun k hk => ⟨(hv k hk).1, Or.inr hk⟩)
+        exact ⟨this.1, fun k hk => ⟨(this.2 k hk).1, (this.2 k hk).2.elim (fun h => Or.inl (List.mem_cons_of_mem _ h)) Or.inr⟩⟩
+
+/-- **The quorum counts arbiters, not signatures**: when the multisig verifier behind `RunPrograms` accepts a
+    V0/V1 witness, at least `m` pairwise distinct keys of the script have each signed. -/
+theorem C33_multisig_distinct_signers (m n : Nat) (keys : List Nat) (sigs : List (Option Nat)) (v : List Nat)
+    (h : verifyMultisig m n keys sigs = some v) :
+    v.Nodup ∧ (∀ k ∈ v, k ∈ keys ∧ some k ∈ sigs) ∧ v.length ≥ m ∧ keys.length = n := by
+  unfold verifyMultisig at h
+  split at h; · cases h
+  rename_i hlen
+  split at h; · cases h
+  split at h; · cases h
+  split at h; · cases h
+  rename_i w hm
+  split at h; · cases h
+  rename_i hge
+  cases h
+  have := matchSigs_spec keys sigs [] v hm List.nodup_nil (by intro k hk; cases hk)
+  refine ⟨this.1, fun k hk => ⟨(this.2 k hk).1, ?_⟩, by omega, by simpa using hlen⟩
+  rcases (this.2 k hk).2 with h1 | h1
+  · exact h1
+  · cases h1
+
+/-- **More than two thirds (V0, legacy era)**: with the majority count of the real dpos state, an accepted
+    payload-version-0 withdrawal below `CRClaimDPOSNodeStartHeight` carries scripts that ask for more than two
+    thirds of the cross-chain arbiters. -/
+theorem C33_v0_legacy_two_thirds (c : Cfg) (l : Ledger) (height : Nat) (t : Tx) (hv : t.pver = 0)
+    (hera : height < c.crClaimStart) (hmaj : l.crossMajority = realMajority l.crossCount)
+    (h : specialCheck c l height t = none) :
+    ∀ p ∈ t.progs, 3 * p.m > 2 * p.n ∧ p.n = (l.crossCount : Int) := by
+  intro p hp
+  have := (C33_v01_quorum c l height t (Or.inl hv) h p hp).2.2.2.2.2 ⟨hv, hera⟩
+  obtain ⟨_, _, hn, hm⟩ := this
+  rw [hmaj] at hm
+  unfold realMajority at hm
+  refine ⟨?_, hn⟩
+  rw [hn]
+  omega
+
 end ElaVerif.C33
